@@ -7,7 +7,12 @@ from vfw import scenarios
 from vfw.props import c07
 fams = sys.argv[1].split(',') if len(sys.argv)>1 and sys.argv[1]!='all' else sorted(scenarios.SCENARIOS)
 n = int(sys.argv[2]) if len(sys.argv)>2 else 10
-ex = c07.make_execute("run")
+from vfw import runner
+obl = c07.OBLIGATIONS[0]
+def ex(case):
+    r = runner.safe_execute('C07', obl, case, None)
+    if r.observed is None: r.observed={'deliveries':0,'outcome':'exception','classes':[],'handled':[]}
+    return r
 rnd = random.Random(int(sys.argv[3]) if len(sys.argv)>3 else 1)
 for f in fams:
     sigs = {}; dl=[]; nt=0; t0=time.time(); classes=set(); handled=set(); outc={}
